@@ -498,6 +498,7 @@ func checkC08(r *core.Run) {
 	c08Pair(r)
 	c08Registry(r)
 	c08Stream(r)
+	c08Whole(r)
 	{
 		var fs []*core.FuncInfo
 		if ci := r.W.Interface("pkg/compressor", "Compressor"); ci != nil {
@@ -929,5 +930,208 @@ func c08Stream(r *core.Run) {
 		r.Sites++
 		r.Check(!cs || da, "C08.stream", name+" passes its input through only if Decompress is the identity", w.Pos(comp.Decl.Pos()), "no raw pass-through under a real decompressor",
 			"Compress returns its input unchanged on some path while Decompress always decodes: the context still names this compress type, so rollback feeds raw bytes to the decompressor and fails")
+	}
+}
+
+// c08Whole: Decompress hands back the whole of what Compress was given.
+//   - a manual loop over the decompressing reader's Read may leave only on an error (io.EOF included): a short
+//     read is not the end of the stream (flate delivers at most one window per Read);
+//   - a block decompressor (no length stored with the block) must not be given a destination capped at a constant
+//     multiple of the input below the format's maximum expansion (lz4: 255) unless a too-short buffer is retried
+//     with a larger one (the call sits in a loop).
+func c08Whole(r *core.Run) {
+	w := r.W
+	ci := w.Interface("pkg/compressor", "Compressor")
+	if ci == nil {
+		return
+	}
+	for _, n := range w.Implementers(ci) {
+		if w.IsTestFile(n.Obj().Pos()) || strings.Contains(n.Obj().Pkg().Path(), "mock") {
+			continue
+		}
+		decomp := methodInfo(w, n, "Decompress")
+		if decomp == nil || decomp.Decl.Body == nil {
+			continue
+		}
+		fns := append([]*core.FuncInfo{decomp}, reachFrom(w, []*core.FuncInfo{decomp}, decomp.Pkg.PkgPath)...)
+		for _, f := range dedupFns(fns) {
+			info := f.Pkg.TypesInfo
+			r.Fn(f)
+			key := core.ShortKey(f.Obj)
+			r.Sites++
+			bad := ""
+			var loops []ast.Node
+			ast.Inspect(f.Decl.Body, func(x ast.Node) bool {
+				switch l := x.(type) {
+				case *ast.ForStmt, *ast.RangeStmt:
+					loops = append(loops, l)
+				}
+				return true
+			})
+			inLoop := func(p token.Pos) ast.Node {
+				var best ast.Node
+				for _, l := range loops {
+					if l.Pos() <= p && p < l.End() {
+						if best == nil || l.Pos() > best.Pos() {
+							best = l
+						}
+					}
+				}
+				return best
+			}
+			mentionsErr := func(e ast.Expr) bool {
+				hit := false
+				ast.Inspect(e, func(m ast.Node) bool {
+					if id, ok := m.(*ast.Ident); ok {
+						if o := info.Uses[id]; o != nil && o.Type() != nil && types.Identical(o.Type(), types.Universe.Lookup("error").Type()) {
+							hit = true
+						}
+						if o, ok := info.Uses[id].(*types.Var); ok && o.Pkg() != nil && o.Pkg().Path() == "io" && o.Name() == "EOF" {
+							hit = true
+						}
+					}
+					if sel, ok := m.(*ast.SelectorExpr); ok && sel.Sel.Name == "EOF" {
+						hit = true
+					}
+					return !hit
+				})
+				return hit
+			}
+			// impliesErr: the condition can only hold when the reader has reported an error (io.EOF included)
+			var impliesErr func(e ast.Expr) bool
+			impliesErr = func(e ast.Expr) bool {
+				e = ast.Unparen(e)
+				if be, ok := e.(*ast.BinaryExpr); ok {
+					switch be.Op {
+					case token.LOR:
+						return impliesErr(be.X) && impliesErr(be.Y)
+					case token.LAND:
+						return impliesErr(be.X) || impliesErr(be.Y)
+					case token.EQL:
+						// err == io.EOF (a sentinel), never err == nil
+						if isNilIdent(info, be.X) || isNilIdent(info, be.Y) {
+							return false
+						}
+						return mentionsErr(be)
+					case token.NEQ:
+						// err != nil
+						return (isNilIdent(info, be.X) || isNilIdent(info, be.Y)) && mentionsErr(be)
+					}
+					return false
+				}
+				if c, ok := e.(*ast.CallExpr); ok {
+					if f := core.Callee(info, c); f != nil && f.Pkg() != nil && f.Pkg().Path() == "errors" && (f.Name() == "Is" || f.Name() == "As") {
+						return true
+					}
+				}
+				return false
+			}
+			// (1) read loops
+			for _, l := range loops {
+				var body *ast.BlockStmt
+				var cond ast.Expr
+				switch x := l.(type) {
+				case *ast.ForStmt:
+					body, cond = x.Body, x.Cond
+				case *ast.RangeStmt:
+					body = x.Body
+				}
+				reads := false
+				ast.Inspect(body, func(m ast.Node) bool {
+					if c, ok := m.(*ast.CallExpr); ok {
+						if sel, ok := ast.Unparen(c.Fun).(*ast.SelectorExpr); ok && sel.Sel.Name == "Read" && len(c.Args) == 1 {
+							if t := info.TypeOf(sel.X); t != nil && !strings.HasSuffix(t.String(), "bytes.Buffer") && !strings.HasSuffix(t.String(), "bytes.Reader") {
+								reads = true
+							}
+						}
+					}
+					return true
+				})
+				if !reads {
+					continue
+				}
+				if cond != nil && !impliesErr(&ast.UnaryExpr{Op: token.NOT, X: cond}) && !mentionsErr(cond) {
+					bad = w.Pos(cond.Pos()) + ": the read loop runs while '" + core.ExprString(cond) + "', which does not ask the reader's error"
+				}
+				// every way out of the loop (break, return) is under a test of the error
+				var stack []ast.Node
+				ast.Inspect(body, func(m ast.Node) bool {
+					if m == nil {
+						stack = stack[:len(stack)-1]
+						return true
+					}
+					stack = append(stack, m)
+					if _, isLit := m.(*ast.FuncLit); isLit {
+						return true
+					}
+					leaves := false
+					switch y := m.(type) {
+					case *ast.BranchStmt:
+						leaves = y.Tok == token.BREAK && inLoop(y.Pos()) == l
+					case *ast.ReturnStmt:
+						leaves = true
+					}
+					if !leaves {
+						return true
+					}
+					under := false
+					for i := len(stack) - 2; i >= 0; i-- {
+						if ifs, ok := stack[i].(*ast.IfStmt); ok && impliesErr(ifs.Cond) {
+							// (the statement sits in the then-branch: else-branches are not accepted)
+							if i+1 < len(stack) && stack[i+1] == ast.Node(ifs.Body) {
+								under = true
+							}
+						}
+						if cc, ok := stack[i].(*ast.CaseClause); ok {
+							for _, e := range cc.List {
+								if mentionsErr(e) {
+									under = true
+								}
+							}
+						}
+					}
+					if !under && bad == "" {
+						bad = w.Pos(m.Pos()) + ": the read loop is left without a test of the reader's error (a short read is not the end of the stream)"
+					}
+					return true
+				})
+			}
+			// (2) block decompressors
+			ast.Inspect(f.Decl.Body, func(x ast.Node) bool {
+				c, ok := x.(*ast.CallExpr)
+				if !ok || len(c.Args) < 2 {
+					return true
+				}
+				callee := core.Callee(info, c)
+				if callee == nil || callee.Pkg() == nil || !strings.Contains(callee.Pkg().Path(), "pierrec/lz4") || !strings.HasPrefix(callee.Name(), "UncompressBlock") {
+					return true
+				}
+				if inLoop(c.Pos()) != nil {
+					return true // a too-short destination is retried
+				}
+				o := origin(f, c.Args[1], 4)
+				// make([]byte, K * len(in))
+				factor := int64(-1)
+				if dv, ok := core.ObjOf(info, c.Args[1]).(*types.Var); ok {
+					for _, d := range localDefs(f, dv) {
+						if mk, ok := ast.Unparen(d.rhs).(*ast.CallExpr); ok && len(mk.Args) >= 2 {
+							if be, ok := ast.Unparen(mk.Args[1]).(*ast.BinaryExpr); ok && be.Op == token.MUL {
+								for _, side := range []ast.Expr{be.X, be.Y} {
+									if v := core.ConstVal(info, side); v != nil && v.Kind() == constant.Int {
+										factor, _ = constant.Int64Val(v)
+									}
+								}
+							}
+						}
+					}
+				}
+				if factor < 255 && bad == "" {
+					bad = w.Pos(c.Pos()) + ": the destination of the block decompressor (" + o + ") is capped below the format's maximum expansion (255x) and a too-short buffer is not retried: what Compress accepted cannot be decompressed once it shrank by more than that factor"
+				}
+				return true
+			})
+			r.Check(bad == "", "C08.stream", key+" hands back the whole uncompressed text", w.Pos(f.Decl.Pos()), "reads to the reader's error / whole-stream helpers / retried block decompression",
+				bad+": a large or very repetitive undo log is cut short or rejected at rollback although it was written without error")
+		}
 	}
 }
